@@ -41,6 +41,7 @@ type FSSpec struct {
 	TargetIsFile  bool      `json:"targetIsFile,omitempty"`
 	ParentIsFile  bool      `json:"parentIsFile,omitempty"` // the target's parent is a regular file
 	TargetMode    uint32    `json:"targetMode,omitempty"`   // permission and sticky/setgid bits of the (existing) target directory, octal as in chmod; 0 = 0755
+	Umask         string    `json:"umask,omitempty"`        // octal process umask during the call ("000", "002", "077"); "" = leave it (022)
 	// InodeLimit > 0: the target directory is a tmpfs of its own that can hold InodeLimit-1 entries (the pre-state counts):
 	// the creation that would exceed it fails with ENOSPC. A fault injector for the filesystem, enumerable per creation.
 	InodeLimit int `json:"inodeLimit,omitempty"`
